@@ -110,6 +110,13 @@ var c14Writes = []c14Write{
 		return c14Seq(func() error { return x.VSetMetadata("ix", "p0", map[string]any{"seq": 9.0, "a": "x"}) },
 			func() error { return x.VSetMetadata("ix", "p0", map[string]any{"seq": 10.0}) })
 	}},
+	// bulk import: not journaled at all; the commit's own snapshot is what makes it durable, and
+	// that snapshot has to wait for (not skip past) an administrative operation that is under way
+	{"VImport+VImportCommit", nil, func(x *vexec.Exec) error {
+		return c14Seq(func() error {
+			return x.VImport("ix", []types.BatchObject{{Id: "imp1", Vector: []float32{5, 1}, Metadata: map[string]any{"seq": 1.0}}, {Id: "imp2", Vector: []float32{5, 2}}, {Id: "imp3", Vector: []float32{5, 3}, Metadata: map[string]any{"seq": 3.0}}})
+		}, func() error { return x.VImportCommit("ix") })
+	}},
 	// ---- write kinds the statement's "a write" also covers (each has an executor method) ----
 	// drop of a second index: flushes, drops, then takes a snapshot of its own and journals VDROP again
 	{"VDeleteIndex", c14SetupWother, func(x *vexec.Exec) error { return x.VDeleteIndex("wother") }},
@@ -163,6 +170,7 @@ var c14Hook = map[string]string{
 	"VAddBatch(int8)":           "op.VAddBatch.journaled",
 	"VReinforce(3)":             "op.VReinforce.journaled",
 	"VEvolve":                   "op.VAdd.journaled",
+	"VImport+VImportCommit":     "op.VImportCommit.saved", // nothing is journaled: parked after the commit's snapshot
 }
 
 func (w c14Write) hook() string {
@@ -405,7 +413,7 @@ type c14Sched struct {
 // subsets of the write table for the reduced products (by name)
 var c14CompressWrites = []string{"KVSet", "VAdd", "VAddBatch", "VDelete", "VSetMetadata", "VReinforce", "VLink", "VUpdateIndexConfig", "VUpdateAutoLinks", "VDelete(cascade)", "VDelete+VAdd", "VEvolve"}
 var c14DropWrites = []string{"KVSet", "VAdd", "VDelete", "VLink", "VCreate", "VDeleteIndex"}
-var c14OverlapWrites = []string{"KVSet", "VAdd", "VDelete", "VLink(evolve)+VUnlink+VLink"}
+var c14OverlapWrites = []string{"KVSet", "VAdd", "VDelete", "VLink(evolve)+VUnlink+VLink", "VImport+VImportCommit"}
 var c14CloseWrites = []string{"KVSet", "KVDelete", "VAdd", "VAddBatch", "VDelete", "VSetMetadata", "VLink", "VUnlink+VLink+VUnlink"}
 
 // c14CompressLoses: the rows that fail while finding D-C14-2 is open (generator guard): the
